@@ -35,10 +35,14 @@ func (e *c10Env) c10Forward(s c10Start, t c10Stop, st *c10State, caseSeed uint64
 	queue := w.inRange(st.committed())
 	expectedAll := append([]c10Msg(nil), queue...)
 	witness := func(obs string) map[string]any {
-		return map[string]any{"seed": kit.Seed(), "shape_seed": e.seed, "case_seed": caseSeed, "shape": e.shape, "log": st.summary(),
+		wm := map[string]any{"seed": kit.Seed(), "shape_seed": e.seed, "case_seed": caseSeed, "shape": e.shape, "log": st.summary(),
 			"request": reqStr, "oracle": map[string]any{"requested_start": w.SReq, "effective_start": w.SEff, "has_bound": w.HasBound,
 				"bound": w.Bound, "bound_kind": w.BoundWhy, "empty_range_ok": w.EmptyOK, "unspecified": w.Unspecified},
 			"expected_offsets": c10Offs(expectedAll), "delivered_offsets": c10Offs(delivered), "observed": obs}
+		for k, v := range e.extra {
+			wm[k] = v
+		}
+		return wm
 	}
 	cause := e.causeForward(st, s, t, w)
 	if cause != "" && c10Seen("fwd|"+cause) >= c10CauseCap {
@@ -62,6 +66,11 @@ func (e *c10Env) c10Forward(s c10Start, t c10Stop, st *c10State, caseSeed uint64
 		} else {
 			c10Unattributed.Add(1)
 		}
+		if e.tag != "" {
+			// lifecycle unit: one fingerprint per (event, kind of deviation, stop class)
+			fp = fmt.Sprintf("C10:life:%s:%s:stop=%s", e.tag, kind, t.Class)
+			what = "after [" + e.tag + "]: " + what
+		}
 		rep.Violation(fp, fmt.Sprintf("%s on %s log: %s", reqStr, e.shape.label(), what), witness(what))
 	}
 	inconc := func(what string) {
@@ -71,7 +80,14 @@ func (e *c10Env) c10Forward(s c10Start, t c10Stop, st *c10State, caseSeed uint64
 
 	ctx, cancel := context.WithCancel(context.Background())
 	defer cancel()
-	sub, err := e.srv.api.SubscribeInternal(ctx, c10Request(e.stream, s, t, false))
+	req := c10Request(e.stream, s, t, false)
+	if e.reqMut != nil {
+		e.reqMut(req)
+	}
+	sub, err := e.srv.api.SubscribeInternal(ctx, req)
+	if e.afterSub != nil {
+		e.afterSub()
+	}
 	if err != nil {
 		out.syncErr = true
 		code := status.Code(err)
